@@ -10,15 +10,15 @@ import vlib
 import p_val
 from vlib import ToolError, log
 
-FAMILIES_QUICK = [("prim", 1), ("object", 1), ("tuple", 1), ("union", 1), ("tpl", 1), ("nonjson", 1), ("format", 1)]
-FAMILIES_THOROUGH = [("prim", 2), ("object", 2), ("tuple", 2), ("union", 2), ("tpl", 2), ("nonjson", 2), ("format", 2)]
+FAMILIES_QUICK = [("prim", 1), ("object", 1), ("tuple", 1), ("union", 1), ("tpl", 1), ("nonjson", 1), ("format", 1), ("util", 1)]
+FAMILIES_THOROUGH = [("prim", 2), ("object", 2), ("tuple", 2), ("union", 2), ("tpl", 2), ("nonjson", 2), ("format", 2), ("util", 2)]
 
 
 def build_records(cases):
     recs = []
     for i, c in enumerate(cases):
         r = c["_comp"]
-        rec = {"ev": "prog", "id": i, "ty": c["ty"], "env": c["env"], "outcome": r["outcome"], "load": "none", "obs": []}
+        rec = {"ev": "prog", "id": i, "ty": c.get("nty", c["ty"]), "env": c.get("nenv", c["env"]), "outcome": r["outcome"], "load": "none", "obs": []}
         if r["outcome"] == "code":
             o = c["_obs"]
             rec["load"] = o["load"]
